@@ -91,7 +91,7 @@ Lemma split_nl_terminate ls tail : Forall (fun l => no_lf l = true) ls ->
 Proof.
   unfold terminate. induction ls as [|l ls IH]; intros H; simpl; [reflexivity|].
   apply Forall_cons_iff in H; destruct H as [Hl Hls]. rewrite <- !app_assoc. simpl.
-  rewrite split_nl_line by exact Hl. rewrite IH by exact Hls. reflexivity.
+  rewrite split_nl_line by exact Hl. f_equal. apply IH. exact Hls.
 Qed.
 
 (* every field of split_nl inherits a per-character property of the text, and has no LF *)
@@ -358,14 +358,14 @@ Lemma splitlines_is_file_split s : no_exotic s = true -> splitlines_py s = drop_
 Proof.
   unfold spec_lines, no_exotic. induction s as [s IH] using strong_list_ind. intros H.
   destruct s as [|c r]; [reflexivity|].
-  simpl in H. apply andb_true_iff in H. destruct H as [Hc Hr].
+  cbn [forallb] in H. apply andb_true_iff in H. destruct H as [Hc Hr].
   destruct (is_cr c) eqn:Ecr.
   - (* CR *) apply is_cr_true in Ecr. subst c.
     cbn [splitlines_py univ_nl]. rewrite lb_CR, is_cr_CR.
     destruct r as [|c2 r2].
     + reflexivity.
     + simpl andb. destruct (is_lf c2) eqn:El.
-      * simpl in Hr. apply andb_true_iff in Hr. destruct Hr as [_ Hr2].
+      * cbn [forallb] in Hr. apply andb_true_iff in Hr. destruct Hr as [_ Hr2].
         cbn [split_nl]. rewrite is_lf_LF. rewrite dle_cons by apply split_nl_nonempty.
         rewrite (IH r2); [reflexivity | simpl; lia | exact Hr2].
       * cbn [split_nl]. rewrite is_lf_LF. rewrite dle_cons by apply split_nl_nonempty.
@@ -376,10 +376,10 @@ Proof.
       cbn [split_nl]. rewrite is_lf_LF. rewrite dle_cons by apply split_nl_nonempty.
       rewrite <- (IH r); [destruct r; reflexivity | simpl; lia | exact Hr].
     + (* ordinary character *)
-      rewrite Ecr, Elf in Hc. rewrite !orb_false_r in Hc. apply negb_true_iff in Hc.
+      rewrite !orb_false_r in Hc. apply negb_true_iff in Hc.
       cbn [splitlines_py univ_nl]. rewrite Hc, Ecr.
       rewrite (IH r); [|simpl; lia | exact Hr].
-      destruct (split_nl_cons_other c (univ_nl r) Elf) as [f [fs [E1 E2]]]. rewrite E2, E1.
+      destruct (split_nl_cons_other c (univ_nl r) Elf) as [f [fs [E1 E2]]]. unfold char, str in *. rewrite E2, E1.
       destruct fs as [|g fs'].
       * simpl. destruct f; reflexivity.
       * rewrite !dle_cons by discriminate. reflexivity.
